@@ -33,6 +33,9 @@ type Family struct {
 	// FatalPerCase makes the signature of a fatal (process-killing) case include its choice sequence,
 	// so that known findings identify individual cases instead of the whole family.
 	FatalPerCase bool
+	// FatalKey, if set, derives the suffix of a fatal case's signature from its choice sequence (e.g. only
+	// the depth rung), so that one recorded finding covers one phenomenon and nothing else.
+	FatalKey func(choices []int) string
 	// MemMB overrides the per-worker address space cap hint (informational; enforced via GOMEMLIMIT-style checks in harnesses).
 	Body func(c *Ctx)
 	// Doc is a one-line description copied into the evidence.
@@ -79,6 +82,7 @@ type workerState struct {
 	variant  string
 	tier     string
 	leaves   int64
+	flushed  int64
 	inner    int64
 	edges    int64
 	outcomes map[string]int64
@@ -281,6 +285,21 @@ type workerFinal struct {
 	Viol     []*Violation      `json:"viol"`
 	ViolN    map[string]int64  `json:"violn"`
 	Capped   bool              `json:"capped"`
+}
+
+// flush returns what was accumulated since the previous flush and resets the accumulators (the leaf
+// counter itself keeps running: it drives sampling and the progress heartbeat). Workers flush after
+// every shard so that a later fatal case does not take the earlier shards' results with it.
+func (w *workerState) flush() *workerFinal {
+	f := w.final()
+	f.Leaves = w.leaves - w.flushed
+	w.flushed = w.leaves
+	w.inner, w.edges = 0, 0
+	w.outcomes, w.counters = map[string]int64{}, map[string]int64{}
+	w.distinct = map[uint64]struct{}{}
+	w.samples = nil
+	w.viol, w.violN = map[string]*Violation{}, map[string]int64{}
+	return f
 }
 
 func (w *workerState) final() *workerFinal {
